@@ -1,4 +1,5 @@
 import RdsProofs.Reach
+import RdsProofs.NormalShown
 import RdsProofs.WordedProofs
 import RdsProofs.LinkProofs
 import RdsProofs.AuditC09
@@ -11,12 +12,18 @@ and C whose first code is not 250 (`Mon.group`). That every addition fires the A
 87500 + 100·code kHz is part of C04 (`chkC04`'s AF clause).
 -/
 -- THEOREM: RDS.C10
+-- THEOREM: RDS.C10_normal_shown
 -- THEOREM: RDS.C10_worded_normal
 -- THEOREM: RDS.C10_worded_extended
 -- THEOREM: RDS.C10_monotone
 -- THEOREM: RDS.C10_only_valid_codes
 -- THEOREM: RDS.C10_worded_extended'
 namespace RDS
+
+/-- "received is shown", for every history: with the extended check off at the moment of the call — whatever the mode was earlier — both codes of an accepted 0A pair are on the list after the call (or are not FM codes) -/
+theorem C10_normal_shown (tb : Tabs) (h : EccOk tb) (ops : List Op) (op : Op) :
+    chkNormalAf (recOf tb.cfg (run tb.cfg ops) op) = true :=
+  chkNormalAf_ok tb _ op (reach tb h ops).2
 
 /-- C10 for every history and every next call -/
 theorem C10 (tb : Tabs) (h : EccOk tb) (ops : List Op) (op : Op) :
